@@ -8,7 +8,7 @@ func init() {
 		Run: func(c *Ctx) {
 			ff := c.fileFilter("mesh_ops.go", "mesh_hierarchy.go", "ptr_mesh.go")
 			c.runCycle("CYCLE", append(c.libPkgs()[:2:2], c.fixturePkg("g")), ff)
-			c.floor("CYCLE", 1)
+			c.floor("CYCLE", 0)
 			c.runEdgeTable("EDGETABLE", append(c.libPkgs()[:2:2], c.fixturePkg("g")), nil)
 			c.floor("EDGETABLE", 1)
 			c.runAllChildren("ALLCHILD", c.libPkgs()[:2], c.fileFilter("mesh_hierarchy.go"))
